@@ -30,7 +30,7 @@ ASSUMPTIONS = [
     "retention model B2 (DESIGN.md Appendix B2): prune from the oldest while id < min(pinned or newest) and policy(len, id) says so",
     "pruning policies used are pure functions of (number of retained versions, version id)",
 ]
-REQUIRED = ["mon.source_object_mutated_after_commit", "mon.reader_snapshot_stable", "mon.retained_set", "mon.version_ids", "mon.mutator_attack", "mon.serial_lookup"]
+REQUIRED = ["mon.fresh_zone_snapshot", "mon.source_object_mutated_after_commit", "mon.reader_snapshot_stable", "mon.retained_set", "mon.version_ids", "mon.mutator_attack", "mon.serial_lookup"]
 BUDGET = {"quick": 40.0, "thorough": 420.0}
 
 MUTATOR_NAMES = ["add", "update", "clear", "pop", "popitem", "remove", "discard", "append", "extend", "insert", "setdefault", "__setitem__", "__delitem__",
@@ -160,6 +160,24 @@ def run_history(ctx, rng, zname, factory, steps):
     z = GZ.build_lib_zone(mz, relativize, zone_factory=factory)
     case = {"kind": "history", "zone": zname, "relativize": relativize, "steps": []}
     tag = zname
+    # a reader opened on a brand-new zone holds a snapshot as well (the empty initial version): nothing reachable may change it
+    ctx.count("mon.fresh_zone_snapshot")
+    zf = factory(origin, relativize=relativize)
+    fresh_name = dns.name.Name((b"fresh",)) if relativize else dns.name.Name((b"fresh",) + tuple(mz.origin))
+    fresh_rds = dns.rdataset.from_text("IN", "A", 300, "10.0.0.1")
+    with zf.reader() as t0:
+        for what, attempt in (("zone.nodes[name] = Node()", lambda: zf.nodes.__setitem__(fresh_name, dns.node.Node())),
+                              ("version.put_rdataset", lambda: t0.version.put_rdataset(fresh_name, fresh_rds)),
+                              ("version.nodes[name] = Node()", lambda: t0.version.nodes.__setitem__(fresh_name, dns.node.Node())),
+                              ("zone.find_node(create=True)", lambda: zf.find_node(fresh_name, create=True))):
+            try:
+                attempt()
+                raised = False
+            except Exception:
+                raised = True
+            if list(t0.iterate_names()) or not raised:
+                ctx.violation(f"initial-version-of-new-zone-is-mutable:{tag}", f"{what}: {'raised' if raised else 'did not raise'}; reader now sees {list(t0.iterate_names())}", case)
+                break
     # model
     first_id = z._versions[-1].id if hasattr(z, "_versions") else None
     with z.reader() as r0:
